@@ -346,6 +346,12 @@ func (fx *FnExec) mergeStates(states []*State) *State {
 		if srt == "" {
 			srt = eng.loopEnumSort[g]
 		}
+		if srt == "" && strings.HasPrefix(g, "fg:") {
+			parts := strings.Split(g, ":")
+			if fc := fx.eng.contracts.Funcs[parts[1]]; fc != nil {
+				srt = fc.ghostSort(parts[len(parts)-1])
+			}
+		}
 		if srt == "" {
 			srt = "(Array Int Int)"
 		}
